@@ -1,5 +1,167 @@
 import Rivaas.Proto
-/- Driver for C03 (stub: not built yet) -/
-def main : IO UInt32 := do
-  IO.eprintln "driver for C03 is not built yet"
-  return 2
+import Rivaas.Model.Pool
+/-
+Driver for C03. One case = one history of requests on the process-wide context pool.
+
+  <id> H <n> (<obj> <steps> <dirty> <accRef> <acceptHeader>)^n <names> => <n> (<view>)^n
+
+  obj     = index of the pooled object the request's handler received (numbered by first appearance: measured)
+  steps   = <k> (Q n | P n | H n | R n | I int | Z | V str | T str | W str str)^k     preparation of the serve path
+  dirty   = <k> (E n | A | M str str | S idx str str | C int | X str | N int)^k      what the handlers did afterwards
+  accRef  = str    results of the four Accept* helpers on a brand-new context for this request (parameter)
+  names   = <m> str^m    parameter names the probe asks for
+  view    = <paramCount int> <all: m (k v)^m sorted> <map: m (k v)^m sorted> <version> <pattern> <aborted> <nerrors>
+            <acc str> <presence nat> <params: m (name value)^m> <retained: nat bitmask of non-clean fields after release>
+-/
+namespace Rivaas.DriverC03
+open Rivaas.Proto Rivaas.Pool
+
+inductive Dirty
+  | errors (n : Nat)                  -- c.Error(err) n times
+  | abort                             -- c.Abort()
+  | mapSet (k v : Bytes)              -- c.Params[k] = v (allocating the map when nil)
+  | setParam (i : Nat) (k v : Bytes)  -- c.SetParam(i, k, v)
+  | setCount (n : Int)                -- c.SetParamCount(n)
+  | accepts (hdr : Bytes)             -- an Accept* helper parsed and cached this header
+  | index (n : Int)                   -- the chain ran: c.index is past the last handler
+
+def Dirty.apply : Dirty → Ctx → Ctx
+  | .errors n, c => { c with errors := c.errors ++ List.replicate n 1 }
+  | .abort, c => { c with aborted := true }
+  | .mapSet k v, c => { c with params := some (Rivaas.Pool.mapSet (c.params.getD []) k v) }
+  | .setParam i k v, c =>
+    if i < 8 then { c with slots := fun j => if j = i then (k, v) else c.slots j }
+    else { c with params := some (Rivaas.Pool.mapSet (c.params.getD []) k v) }
+  | .setCount n, c => { c with paramCount := n }
+  | .accepts h, c => { c with acceptHeader := h, acceptSpecs := 1, arena := 1 }
+  | .index n, c => { c with index := n }
+
+def pStep : P Step := do
+  let k ← tok
+  if k == "Q" then Step.setRequest <$> nat
+  else if k == "P" then Step.setResponse <$> nat
+  else if k == "H" then Step.setHandlers <$> nat
+  else if k == "R" then Step.setRouter <$> nat
+  else if k == "I" then Step.setIndex <$> int
+  else if k == "Z" then pure Step.zeroCount
+  else if k == "V" then Step.setVersion <$> str
+  else if k == "T" then Step.setPattern <$> str
+  else if k == "W" then (do let a ← str; let b ← str; pure (Step.writeParam a b))
+  else failure
+
+def pDirty : P Dirty := do
+  let k ← tok
+  if k == "E" then Dirty.errors <$> nat
+  else if k == "A" then pure Dirty.abort
+  else if k == "M" then (do let a ← str; let b ← str; pure (Dirty.mapSet a b))
+  else if k == "S" then (do let i ← nat; let a ← str; let b ← str; pure (Dirty.setParam i a b))
+  else if k == "C" then Dirty.setCount <$> int
+  else if k == "X" then Dirty.accepts <$> str
+  else if k == "N" then Dirty.index <$> int
+  else failure
+
+structure Req where
+  obj : Nat
+  steps : List Step
+  dirty : List Dirty
+  accRef : Bytes
+  hdr : Bytes          -- this request's Accept header
+
+def pReq : P Req := do
+  let o ← nat; let s ← list pStep; let d ← list pDirty; let a ← str; let h ← str
+  pure ⟨o, s, d, a, h⟩
+
+def pKV : P KV := do let k ← str; let v ← str; pure (k, v)
+
+/-- what the probe reads through the API (canonical) -/
+structure Probe where
+  paramCount : Int
+  all : List KV          -- AllParams(), sorted by key
+  mapE : List KV         -- c.Params, sorted by key
+  version : Bytes
+  pattern : Bytes
+  aborted : Bool
+  nerrors : Nat
+  acc : Bytes            -- results of the four Accept* helpers
+  presence : Nat         -- app level: len(c.Presence()) at handler start
+  params : List KV       -- Param(name) for every asked name
+  deriving DecidableEq
+
+def pProbe : P (Probe × Nat) := do
+  let pc ← int; let all ← list pKV; let mp ← list pKV
+  let v ← str; let pt ← str; let ab ← bool; let ne ← nat; let acc ← str; let pr ← nat
+  let ps ← list pKV; let retained ← nat
+  pure (⟨pc, all, mp, v, pt, ab, ne, acc, pr, ps⟩, retained)
+
+/-- lexicographic order on byte strings -/
+def ltBytes : Bytes → Bytes → Bool
+  | [], [] => false
+  | [], _ :: _ => true
+  | _ :: _, [] => false
+  | a :: r, b :: s => a.toNat < b.toNat || (a.toNat == b.toNat && ltBytes r s)
+
+def insertKV (kv : KV) : List KV → List KV
+  | [] => [kv]
+  | x :: r => if ltBytes kv.1 x.1 then kv :: x :: r else if kv.1 = x.1 then kv :: r else x :: insertKV kv r
+
+/-- Go map built by inserting in order (later wins), rendered sorted by key -/
+def sortedMap (l : List KV) : List KV := l.foldl (fun m kv => insertKV kv m) []
+
+def lookupKV (l : List KV) (k : Bytes) : Option Bytes := (l.find? (·.1 == k)).map (·.2)
+
+/-- `Param(key)`: visible slots in slot order (first hit), then the map -/
+def paramOf (v : View) (k : Bytes) : Bytes :=
+  match lookupKV v.visible k with
+  | some x => x
+  | none => (lookupKV v.mapEntries k).getD []
+
+/-- render a model view the way the probe reads the implementation. The Accept cache is observed through the
+    helpers' results: they equal the reference whenever no stale cache entry for this request's header is visible. -/
+def render (v : View) (names : List Bytes) (accRef : Bytes) (hdr : Bytes) : Probe :=
+  { paramCount := v.paramCount,
+    all := sortedMap (v.visible ++ v.mapEntries),     -- AllParams: slots first, then maps.Copy overrides
+    mapE := sortedMap v.mapEntries,
+    version := v.version, pattern := v.routePattern, aborted := v.aborted, nerrors := v.errors.length,
+    acc := if v.acceptHeader = [] ∨ v.acceptHeader ≠ hdr then accRef else "<stale-accept-cache>".toList,
+    presence := 0,
+    params := names.map fun n => (n, paramOf v n) }
+
+/-- run the pool model over the history, picking the pooled object the implementation was observed to reuse -/
+def runModel (reqs : List Req) : List View × List View :=
+  let rec go (pool : List (Nat × Ctx)) (rs : List Req) (seen fresh : List View) : List View × List View :=
+    match rs with
+    | [] => (seen.reverse, fresh.reverse)
+    | r :: rest =>
+      let c := ((pool.find? (·.1 == r.obj)).map (·.2)).getD brandNew
+      let s := prepare r.steps c
+      let after := reset (r.dirty.foldl (fun c d => d.apply c) s)
+      go ((r.obj, after) :: pool.filter (·.1 != r.obj)) rest (view s :: seen) (view (prepare r.steps brandNew) :: fresh)
+  go [] reqs [] []
+
+/-- fields that may be non-zero on a released object: router (3), index (4), paramKeys (6), paramValues (7) -/
+def retainedAllowed : Nat := 2^3 + 2^4 + 2^6 + 2^7
+
+def step (line : String) : String :=
+  match splitCase line with
+  | none => "? bad-line"
+  | some (id, inp, obs) =>
+    if obs == ["P"] then verdict id false false "-" "panic" else
+    match inp with
+    | "H" :: rest =>
+      match runP (do let rs ← list pReq; let ns ← list str; pure (rs, ns)) rest, runP (list pProbe) obs with
+      | some (reqs, names), some probes =>
+        let (seen, fresh) := runModel reqs
+        let mk := fun (vs : List View) => (vs.zip reqs).map fun (v, r) => render v names r.accRef r.hdr
+        let mSeen := mk seen
+        let mFresh := mk fresh
+        let impl := probes.map (·.1)
+        let mi := mSeen == impl
+        -- oracle: the implementation's view is the brand-new view, and the released object is clean
+        let s := mFresh == impl && probes.all (fun p => p.2 &&& (Nat.xor (2^16 - 1) retainedAllowed) == 0)
+        verdict id mi s "-" s!"{mSeen.length}"
+      | _, _ => s!"{id} bad-case"
+    | _ => s!"{id} bad-case"
+
+end Rivaas.DriverC03
+
+def main : IO UInt32 := Rivaas.Proto.driverMain Rivaas.DriverC03.step
